@@ -93,15 +93,47 @@ def run(prog, rep, tier):
                     bad = [x for x in ok_assign_blocks(body) if x[0] in r]
                     rep.ob('R14.1', not bad, 'R14.1|%s|flush-error-propagated' % body.nkey, 'a failed inner flush is reported' if not bad else 'a failed inner flush can still be reported as success', body.loc(sbb))
 
-    # ---------------- R14.2 pass-through layers own no byte container
-    for adt in ('layers::encrypt::EncryptionLayerWriter', 'layers::position::PositionLayerWriter', 'layers::raw::RawLayerWriter'):
-        a = prog.adt(adt, 'mla')
-        if a is None:
-            rep.ob('R14.2', False, 'R14.2|anchor|%s' % adt, '%s not found' % adt)
+    # ---------------- R14.2 a writer of the chain that owns a byte container drains it in flush
+    BYTE_BUFS = ('Vec<u8>', 'VecDeque<u8>', 'Cursor<', 'BufWriter<', 'LineWriter<', 'BytesMut', 'Box<[u8]>')
+    n_types = 0
+    for fl_body in targets:
+        adt = fl_body.impl_adt
+        if not adt or fl_body.impl_trait != 'std::io::Write':
             continue
-        bufs = [f['name'] for f in a['variants'][0]['fields'] if any(x in f['nty'] for x in ('Vec<', 'Cursor<', 'BufWriter<', 'VecDeque<', 'String'))]
-        rep.ob('R14.2', not bufs, 'R14.2|%s|no-buffer-field' % adt, 'no byte container field: every accepted byte is handed to the inner writer within write()' if not bufs else
-               '%s buffers bytes in %s but its flush does not drain them' % (adt, bufs), '-')
+        a = prog.adt(adt, fl_body.pkg)
+        if a is None or not a['variants']:
+            continue
+        n_types += 1
+        bufs = [f['name'] for v in a['variants'] for f in v['fields'] if any(x in f['nty'] for x in BYTE_BUFS)]
+        if not bufs:
+            rep.ob('R14.2', True, 'R14.2|%s|no-buffer-field' % adt, 'no byte container field: every accepted byte is handed to the inner writer within write()', '-')
+            continue
+        for F in bufs:
+            def drains(body):
+                out = []
+                for blk in body.calls():
+                    t = blk.term
+                    if t.cmethod in ('write_all', 'flush') and t.ctrait == 'std::io::Write':
+                        for ar in t.args:
+                            if ar.place is None:
+                                continue
+                            o = origins(body, [ar.place[0]], through_calls=True)
+                            if 1 in o.params and any(F in f for f in o.fields):
+                                out.append(blk.idx)
+                return out
+            helpers = {b.key for b in prog.crates[fl_body.pkg].bodies if b.impl_adt == adt and b.key != fl_body.key and drains(b)}
+            dblocks = list(drains(fl_body))
+            for blk in fl_body.calls():
+                cands, exact = resolve_call(prog, fl_body, blk.term)
+                if exact and len(cands) == 1 and cands[0].key in helpers:
+                    dblocks.append(blk.idx)
+            avoid = fl_body.reachable(0, removed_blocks=dblocks)
+            oks = [(bb, i) for bb, i in ok_assign_blocks(fl_body) if bb in avoid]
+            ok = bool(dblocks) and not oks
+            rep.ob('R14.2', ok, 'R14.2|%s|buffer:%s|drained-by-flush' % (adt, F), 'every Ok result of flush passes through write_all(self.%s) to the inner writer' % F if ok else
+                   '%s keeps accepted bytes in self.%s but its flush can return Ok without handing them to the inner writer: after a successful flush() part of the '
+                   'appended data is still in memory and is lost by a cut' % (adt, F), fl_body.loc())
+    rep.floor('R14.2', n_types, 6, 'writer types of the chain whose fields were inspected')
     cf = one_body(prog, rep, 'R14.2', 'mla', adt='layers::compress::CompressionLayerWriter', name='flush', trait='std::io::Write')
     if cf is not None:
         sws = arm_of_enum_switch(prog, cf, adt='layers::compress::CompressionLayerWriterState')
